@@ -452,6 +452,8 @@ def gen_scaled(rng, g, cfg, name, nodes, prices):
         a['min_scale'] = rng.choice([0.0, 0.0, 0.5])
         a['max_scale'] = a['min_scale'] + rng.choice([1.0, 2.0, 4.0])
     a['fix_costs'] = rng.choice([0.0, 0.125, 1.0, 2.5])
+    if rng.random() < cfg.get('p_wacc_scaled', 0.0):
+        a['wacc'] = rng.choice([0.5, 2.0])          # a discount rate on the scaled asset itself (the base asset has its own)
     if rng.random() < cfg.get('p_window_scaled', 0.25):
         # the scaled asset's own life time (fixed costs count for its duration only)
         s0, e0 = gen_window(rng, g, dict(cfg, p_window=1.0, window_kinds=['inside', 'left', 'right']))
@@ -479,6 +481,13 @@ def gen_structured(rng, g, cfg, name, nodes, prices):
     assets.append(gen_simple_contract(rng, g, sub, name + '_c', inner_node, prices, market=(r > 0.3)))
     if rng.random() < 0.4:
         assets.append(gen_simple_contract(rng, g, sub, name + '_x', rng.choice(ext), prices))
+    if rng.random() < cfg.get('p_struct_scaled', 0.0):
+        # a sized connection: a scaled asset whose first node is an external node of the structure
+        e_ = rng.choice(ext)
+        sc = gen_scaled(rng, g, dict(sub, p_window_scaled=0.0, p_window_scaled_base=0.0), name + '_z', [e_, inner_node], prices)
+        if sc['nodes'][0] != e_ and len(sc['nodes']) == 1:
+            sc['base']['nodes'] = [e_]; sc['nodes'] = [e_]
+        assets.append(sc)
     rng.shuffle(assets)
     a = {'kind': 'StructuredAsset', 'name': name, 'nodes': ext, 'assets': assets}
     if rng.random() < cfg.get('p_struct_inside', 0.0) and len(grid_points(g)) >= 5:
